@@ -144,11 +144,11 @@ theorem sim_node : ∀ (sn : SNode), sn.Well → ∀ (b : Builder), Ready b → 
     refine ⟨?_, fun _ sp => headOk_emit_single rfl⟩
     intro rest lexErr
     exact run_comment b text junk rest lexErr
-  | .pi target content junk, _, b, _, _ => by
+  | .pi target content junk, hw, b, _, _ => by
     simp only [SNode.denote, encodeList_single, PNode.encode]
     refine ⟨?_, fun _ sp => headOk_emit_single rfl⟩
     intro rest lexErr
-    exact run_pi b target content junk rest lexErr
+    exact run_pi b target content junk rest lexErr hw
 theorem sim_list : ∀ (sns : List SNode), SNode.Well.wellList sns → noAdjChars sns = true →
     ∀ (b : Builder), Ready b → (∀ sn rest, sns = sn :: rest → sn.isChars = true → HeadOk b) →
     Sim b (SNode.tokens.tokensList sns) (PNode.encode.encodeList b.env (SNode.denote.denoteList sns)).1
